@@ -839,6 +839,10 @@ def spec_filesizeformat(value, p):
 
 def spec_round(value, p):
     prec, method = p["precision"], p["method"]
+    if method == "common":
+        # 'common' is ordinary rounding = Python's round(value, precision), compared exactly (it works on the
+        # decimal value of the float, not on value * 10**precision, and returns non-finite / huge floats as they are)
+        return Exact(round(value, prec))
     v = Fraction(value)
     q = Fraction(10) ** prec
     scaled = v * q
